@@ -320,6 +320,7 @@ contract(SOL + "check_groundwater_table.py", "check_groundwater_table",
              ("C19.cgt_table_in_soil", "implies(water_table_presence == 1, WTinSoil == (prof.zMid[n-1] >= z_gw))"),
              ("C19.cgt_follows_observation", "implies(water_table_presence == 1, zGW == z_gw)"),
              ("C19.cgt_no_table_not_in_soil", "implies(water_table_presence == 0, not WTinSoil)"),
+             ("C19.cgt_not_in_soil_means_all_above", "implies(water_table_presence == 1 and not WTinSoil, forall(j, 0, n, prof.zMid[j] < z_gw))"),
              ("C12.cgt_len", "implies(water_table_presence == 1, length(fcAdj) == n)"),
              ("C19.cgt_no_table_passthrough", "implies(water_table_presence == 0, length(fcAdj) == n and forall(j, 0, n, fcAdj[j] == NewCond_th_fc_Adj[j]))"),
          ],
@@ -550,6 +551,9 @@ contract(SOL + "transpiration.py", "transpiration",
              ("C13.transpiration_net_only_method4", "implies(IrrMngt_IrrMethod != 4, IrrNet == 0)"),
              ("C06.transpiration_net_cum", "NewCond.irr_net_cum == ite(growing_season and IrrMngt_IrrMethod == 4, old(InitCond.irr_net_cum) + IrrNet, 0)"),
              ("C06.transpiration_tpot_state", "NewCond.t_pot == TrPot0"),
+             # the canopy is only ever set back to yesterday's value (no transpiration although the canopy grew)
+             ("C05.transpiration_canopy", "NewCond.canopy_cover == old(InitCond.canopy_cover) or "
+                                          "(growing_season and NewCond.canopy_cover == old(InitCond.cc_prev) and old(InitCond.cc_prev) < old(InitCond.canopy_cover))"),
              ("C04.transpiration_aer_days", "implies(growing_season, 0 <= NewCond.aer_days and NewCond.aer_days <= Crop.LagAer and NewCond.day_submerged >= 0 and forall(j, 0, n, NewCond.aer_days_comp[j] >= 0))"),
              ("C12.transpiration_same_object", "same(NewCond, InitCond) and same(NewCond.th, old(InitCond.th))"),
          ],
